@@ -53,7 +53,15 @@ func runSolver(ctx context.Context, sp solverSpec, file string, timeoutS int) So
 	_ = cmd.Run()
 	ms := time.Since(t0).Milliseconds()
 	txt := out.String()
-	first := strings.TrimSpace(strings.SplitN(strings.TrimSpace(txt), "\n", 2)[0])
+	first := ""
+	for _, ln := range strings.Split(txt, "\n") {
+		ln = strings.TrimSpace(ln)
+		if ln == "" || strings.HasPrefix(ln, "WARNING") || strings.HasPrefix(ln, "(warning") {
+			continue
+		}
+		first = ln
+		break
+	}
 	r := SolveResult{Solver: sp.name, Ms: ms, Output: txt}
 	switch first {
 	case "unsat":
@@ -112,8 +120,10 @@ func Discharge(name, query string, timeoutS int, wantModel bool) SolveResult {
 		return r1
 	}
 	if r1.Status == "sat" || r1.Status == "unknown" {
-		if i := strings.Index(r1.Output, "\n"); i >= 0 {
-			r1.Model = r1.Output[i+1:]
+		if i := strings.Index(r1.Output, "(\n"); i >= 0 {
+			r1.Model = r1.Output[i:]
+		} else if i := strings.Index(r1.Output, "(model"); i >= 0 {
+			r1.Model = r1.Output[i:]
 		}
 	}
 	// stage 2: full portfolio with default quantifier handling
